@@ -358,6 +358,26 @@ def real_stages(m: onnx.ModelProto, call: dict, ctx: dict, lits: L.Lits) -> dict
             out["adapt_model_restored"] = node.model is base
         except Exception:  # noqa: BLE001
             pass
+        # the same node adapted again under OTHER outer names (another build): nothing may be remembered
+        try:
+            arg2 = list(reversed(ctx["argNames"]))
+            res2 = [n + "_r" for n in ctx["resNames"]]
+            node2 = ctx["nodeName"] + "7"
+            var_names2 = dict(zip(node.inputs.inputs, arg2))
+            var_names2.update(zip(node.outputs.outputs, res2))
+            onnx.version_converter.convert_version = spy
+            try:
+                got2 = adapt_fn(node, list(nodes), {"": ad["target"]}, var_names2, node2)
+                out["adapt2"] = {"nodes": [L.abstract_node(n, lits) for n in got2]}
+            except Exception as e:  # noqa: BLE001
+                out["adapt2"] = type(e).__name__
+            finally:
+                onnx.version_converter.convert_version = real_conv
+            out["ctx2"] = {"nodeName": node2, "argNames": arg2, "resNames": res2,
+                           "var": {"used": list(dict.fromkeys(arg2 + res2)), "counters": []},
+                           "node": {"used": [node2], "counters": []}}
+        except Exception as e:  # noqa: BLE001
+            out["unobservable"] = f"adapt_inline (second call): {type(e).__name__}: {e}"
     return out
 
 
@@ -1005,6 +1025,7 @@ def run(ck: core.Check):
     # ---- tie H: stages of inline(m)(call) + to_onnx, model vs real
     lits = L.Lits()
     reqs, reals, descr = [], [], []
+    reqs2: list = []
     n_forms = ck.pick(4, 6)
     with warnings.catch_warnings():
         warnings.simplefilter("ignore")
@@ -1032,6 +1053,11 @@ def run(ck: core.Check):
                             "converted": real.get("adapt_converted"),
                         }
                     reqs.append(rq)
+                    if "adapt2" in real and not real.get("adapt_conv_raised") and real.get("adapt_called"):
+                        # second request: the model's adaptInline under the other names, first emission = the
+                        # build's nodes under the FIRST names (what the real second call was handed)
+                        reqs2.append((len(reqs) - 1, {"model": rq["model"], "call": call, "ctx": real["ctx2"],
+                                                      "adapt": {**rq["adapt"], "varNames": real["ctx2"]["var"]["used"]}}))
                     reals.append(real)
                     descr.append((mi, call, ctx))
     try:
@@ -1073,6 +1099,25 @@ def run(ck: core.Check):
             if mism <= 3:
                 ck.broken("correspondence", "C08 stages model-vs-implementation",
                           f"{d} | model#{mi} {json.dumps(L.summary(models[mi][0]))[:500]} call={json.dumps(call)[:200]} ctx={json.dumps({k: v for k, v in ctx.items() if not k.startswith('_')})[:300]}")
+    # adapt_inline called twice on one node under different names
+    try:
+        ans2 = ck.driver().ask_many("C08", [r for _, r in reqs2]) if reqs2 else []
+    except Exception as e:  # noqa: BLE001
+        ck.broken("correspondence", "C08 driver (adapt2)", str(e))
+        ans2 = []
+    mism2 = 0
+    for (i, _), a in zip(reqs2, ans2):
+        ra = reals[i]["adapt2"]
+        ma = a.get("adapt")
+        ok = (ra == ma) if isinstance(ra, str) or isinstance(ma, str) or ma is None else (
+            (not ma["converts"]) or ra["nodes"] == ma["nodes"])
+        if not ok:
+            mism2 += 1
+            if mism2 <= 2:
+                ck.broken("correspondence", "C08 adapt_inline under other names (second call on the same node)",
+                          f"real {json.dumps(ra)[:400]} model {json.dumps(ma)[:400]}")
+    ck.cov["adapt_second_call_cases"] = len(reqs2)
+    ck.cov["adapt_second_call_mismatches"] = mism2
     ck.cov["correspondence_cases"] = len(reqs)
     ck.cov["correspondence_mismatches"] = mism
     ck.cov["correspondence_outcomes"] = outcomes
